@@ -55,7 +55,8 @@ def sweep_alloc(quick):
 
 
 def sweep_length(quick):
-    ns = [0, 1, 2, 4025, 4026, 4027, 8121, 8122, 8123, 12218]
+    # sector-filling lengths (4026, 8122, 12218) +-1, and lengths around the transcoder's 2048-word block
+    ns = [0, 1, 2, 2047, 2048, 2049, 4025, 4026, 4027, 4095, 4096, 4097, 6144, 6145, 8121, 8122, 8123, 12218]
     for n in ns:
         ses = {(0, n), (min(1, n), n), (0, max(n - 1, 0)), (min(1, n), max(n - 1, min(1, n))), (n, n), (0, 0)}
         for (s, e) in sorted(ses):
